@@ -64,7 +64,7 @@ func (R *Repository) AddCRL(crlLocations *core.CRLLocations, chains *core.Certif
 	if err != nil {
 		return false, fmt.Errorf("could not calculate crl location identifier: %v", err)
 	}
-	entry, crlAdded, err := R.getOrAddEntry(identifier, loader, chains)
+	entry, crlAdded, err := R.getOrAddEntryForLocations(identifier, loader, chains, crlLocations)
 	if err != nil {
 		return false, err
 	}
@@ -92,11 +92,15 @@ func (R *Repository) isEntryLoaded(entry *Entry) bool {
 }
 
 func (R *Repository) getOrAddEntry(identifier string, loader crlloader.CRLLoader, chains *core.CertificateChains) (*Entry, bool, error) {
+	return R.getOrAddEntryForLocations(identifier, loader, chains, nil)
+}
+
+func (R *Repository) getOrAddEntryForLocations(identifier string, loader crlloader.CRLLoader, chains *core.CertificateChains, crlLocations *core.CRLLocations) (*Entry, bool, error) {
 	R.crlRepositoryLock.Lock()
 	defer R.crlRepositoryLock.Unlock()
 	entry := R.crlRepository[identifier]
 	if entry == nil {
-		entry, err := R.addNewEmptyEntry(loader, identifier, chains)
+		entry, err := R.addNewEmptyEntry(loader, identifier, chains, crlLocations)
 		if err != nil {
 			//crl was not added because of error
 			return entry, false, err
@@ -165,7 +169,7 @@ func (R *Repository) loadCRL(entry *Entry, chains *core.CertificateChains) (err 
 	return nil
 }
 
-func (R *Repository) addNewEmptyEntry(loader crlloader.CRLLoader, identifier string, chains *core.CertificateChains) (*Entry, error) {
+func (R *Repository) addNewEmptyEntry(loader crlloader.CRLLoader, identifier string, chains *core.CertificateChains, crlLocations *core.CRLLocations) (*Entry, error) {
 	store, err := R.Factory.CreateStore(identifier, false)
 	if err != nil {
 		return nil, err
@@ -179,6 +183,13 @@ func (R *Repository) addNewEmptyEntry(loader crlloader.CRLLoader, identifier str
 	//if this is persistent store it might be present already
 	if store.IsEmpty() == false {
 		newEntry.Loaded = true
+	} else if crlLocations != nil {
+		//remember the locations right away: whoever loads the entry first (handshake, background
+		//fetch or periodic update) must leave an entry behind that can be refreshed later
+		err = store.UpdateCRLLocations(crlLocations)
+		if err != nil {
+			return nil, err
+		}
 	}
 	R.crlRepository[identifier] = &newEntry
 	return &newEntry, nil
